@@ -123,3 +123,9 @@ pub proof fn lemma_ids_push(d: Seq<Entity>, k: int)
         if d[k].0 == i { assert(a[k] == i); }
     }
 }
+
+// TRUSTED (borrow semantics): when the drop guard of Storage::not_present_insert is forgotten, the exclusive
+// borrow it holds simply ends; the borrowed MaskedStorage keeps the value it had at that moment.
+pub broadcast axiom fn axiom_guard_resolved<'a, T: Component>(g: RemoveOnDrop<'a, T>)
+    requires #[trigger] has_resolved(g),
+    ensures has_resolved(g.0);
